@@ -348,9 +348,10 @@ def run(run, tier, replay=None):
     hook_seeds = [] if quick else [0, 1, 2, 3]
     have_ruff = os.path.exists("/venv/bin/ruff")
     run.rule = ("documents = fixed corpus (minimal witnesses of the known findings, allOf chain with parents after children, one model shared as multipart/json/form body and response by "
-                "operations on different paths, name pressure between schemas and between operations) + %d random structured documents (gen/docs.py: 3-12 schemas, 2-10 operations, several "
+                "operations on different paths, name pressure between schemas and between operations; corpus_order(): allOf child/parent pairs and chains whose child name is a suffix of the parent's, same-class-name twin "
+                "string/int enums in schemas and query parameters - these under EVERY order of components.schemas x paths) + %d random structured documents (gen/docs.py: 3-12 schemas, 2-10 operations, several "
                 "operations per path, forward refs, allOf parents after children, mutual refs, unions of models, hub models with >=2 lazy imports, models shared as bodies under different media types "
-                "and as responses, request bodies with several media types, inline body schemas minting class names); each document x %d orders of components.schemas / paths / operations inside a "
+                "and as responses, request bodies with several media types, inline body schemas minting class names, suffix-named allOf families, twin string enums); each document x %d orders of components.schemas / paths / operations inside a "
                 "path item (original, reversed, random) + 1 variant permuting only the media types inside request bodies, under PYTHONHASHSEED in %s (all orders) and the original order under %s, "
                 "every generation in a fresh interpreter; a case = one (document, order, seed) tree compared byte-for-byte with the (original order, first seed) tree; non-trivial = the document "
                 "has a model with >=2 lazy imports or the order differs from the original; distinct by hash of (document, order, seed)." % (n_random, n_perm, order_seeds, seeds))
@@ -450,7 +451,7 @@ def run(run, tier, replay=None):
                     if s == ss[0] and vi == 0:
                         continue
                     if vi > 0 and (bool(res["diag"]) or res["exc"]):
-                        run.violation("oracle", {"note": "a reordering of a diagnostic-free document produced diagnostics", "doc_a": vs[0], "doc_b": vs[vi], "seed_a": ss[0], "seed_b": s,
+                        run.violation("oracle", {"note": "a reordering of a diagnostic-free document produced diagnostics", "doc_name": name, "doc_a": vs[0], "doc_b": vs[vi], "seed_a": ss[0], "seed_b": s,
                                                  "hooks": hooks, "diag": res["diag"][:3], "exc": res["exc"]})
                         continue
                     for path, verdict, det in compare(base_tree, tree, base_res, res, tbl):
